@@ -1045,9 +1045,9 @@ func cCorrectTable(e *Env, rule string) {
 // more (which rounds to UTC midnight), or a conversion with UTC() / In() - differs
 // from it in every zone but UTC: the history store formats and compares the times it
 // is given, it never truncates them to days or moves them to another zone.
-func c06CalendarDay(e *Env) {
+func c06CalendarDay(e *Env, rule string) {
 	r := e.R
-	r.Rule("C06.day-is-calendar-day", "effect table", "the history store derives days from the wall clock (Format), never from absolute-time truncation or zone conversion", 1)
+	r.Rule(rule, "effect table", "the history store derives days from the wall clock (Format), never from absolute-time truncation or zone conversion", 1)
 	sp := e.P.Pkg(jsondbRel)
 	if sp == nil {
 		r.Unknown("history store package", "-", "not loaded")
@@ -1082,6 +1082,28 @@ func c06CalendarDay(e *Env) {
 					bad++
 					r.Bad(shortName(f)+": a time is moved to another zone", e.InstrPos(in),
 						"the history store converts a time to another zone before formatting or comparing it, while run files are stamped with the process's wall clock: day selection and ordering disagree with the file names outside that zone")
+				}
+			}
+		}
+	}
+	// the times the rest of the repository hands to the store (the start time that goes
+	// into a run's file name): not moved to another zone or cut to days either
+	for _, f := range e.RepoFuncsSorted() {
+		if rootFn(f).Package() == sp {
+			continue
+		}
+		for _, ci := range ir.CallsIn(f, func(c *ssa.CallCommon) bool {
+			return c.IsInvoke() && strings.HasSuffix(ir.NamedType(c.Value.Type()), "persistence.HistoryStore")
+		}) {
+			for _, a := range ci.Common().Args {
+				if ir.NamedType(a.Type()) != "time.Time" {
+					continue
+				}
+				n++
+				if c, isC := ir.Resolve(a).(*ssa.Call); isC && ir.IsCallTo(&c.Call, "(time.Time).UTC", "(time.Time).In", "(time.Time).Truncate", "(time.Time).Round") {
+					bad++
+					r.Bad(shortName(f)+": the time handed to the history store is the process's own wall clock", e.InstrPos(ci),
+						"the start time that names a run's history file is converted ("+ir.CalleeName(&c.Call)+") before it reaches the store, while the store selects `today` by the local calendar day: where the converted date differs from the local one the finished run is not found and the latest status is reported as `not started`")
 				}
 			}
 		}
